@@ -2,6 +2,7 @@ package main
 
 import (
 	"fmt"
+	"go/ast"
 	"go/token"
 	"go/types"
 	"sort"
@@ -121,6 +122,7 @@ func (ex *Exec) finish(st *State, fr *Frame, res Value) {
 	if ct == nil {
 		return
 	}
+	ex.event(st, &Event{Callee: "return", Args: fr.Args, Results: tupleElems(res), Fn: fr.Fn, Kind: "return"})
 	names := ex.paramNames(fr.Fn, fr.Args, res, true)
 	for i, en := range ct.Ensures {
 		var errs []string
@@ -268,14 +270,9 @@ func (ex *Exec) applyContract(st *State, fr *Frame, ins ssa.Instruction, f *ssa.
 		if label == "" {
 			label = fmt.Sprintf("#%d", i)
 		}
+		// a call-site precondition belongs to the properties of the callee's clause: every caller of a
+		// contracted function must be a target of those properties (props.json "functions")
 		props := append([]string(nil), rq.Props...)
-		if cct := ex.Specs.Contracts[fr.Fn.String()]; cct != nil {
-			for _, p := range cct.Props {
-				if !hasProp(props, p) {
-					props = append(props, p)
-				}
-			}
-		}
 		ob := &Obligation{Name: fmt.Sprintf("%s/pre@%s#%d/%s", ex.fnName(fr.Fn), shortName(f.String()), ord, label), Kind: "pre", Goal: t, Props: props, Fn: fr.Fn.String()}
 		if ins != nil {
 			ob.Pos = ex.Prog.Fset.Position(ins.Pos())
@@ -288,12 +285,25 @@ func (ex *Exec) applyContract(st *State, fr *Frame, ins ssa.Instruction, f *ssa.
 	}
 	// frame: havoc what the contract may assign
 	var targets []*PtrV
+	var reachVals []Value
 	if ct.HasAssign {
 		for _, a := range ct.Assigns {
+			// reach(x): everything reachable from the value x (closure bindings, pointees)
+			if ce, ok := a.(*ast.CallExpr); ok {
+				if id, ok := ce.Fun.(*ast.Ident); ok && id.Name == "reach" && len(ce.Args) == 1 {
+					if v := env.eval(ce.Args[0]); v != nil {
+						reachVals = append(reachVals, v)
+					}
+					continue
+				}
+			}
 			if p := env.lvalueExpr(a); p != nil {
 				targets = append(targets, p)
 			}
 		}
+	}
+	for _, v := range reachVals {
+		ex.forceInit(st, v, map[*Object]bool{})
 	}
 	for _, p := range targets {
 		if p.Obj != nil {
@@ -323,6 +333,9 @@ func (ex *Exec) applyContract(st *State, fr *Frame, ins ssa.Instruction, f *ssa.
 			t := typeAtPath(p.Obj.Typ, p.Path)
 			st.Heap[p.Obj] = ex.writePath(st, root, p.Path, ex.G.Fresh(t, "post_"+sanitize(p.Obj.Name)), p.Obj.Typ)
 			ex.markWritten(st, p.Obj)
+		}
+		for _, v := range reachVals {
+			ex.havocReach(st, v, map[*Object]bool{})
 		}
 	} else {
 		for _, a := range args {
@@ -407,6 +420,10 @@ func (ex *Exec) forceInit(st *State, v Value, seen map[*Object]bool) {
 	case *StructV:
 		for _, f := range x.F {
 			ex.forceInit(st, f, seen)
+		}
+	case *FuncV:
+		for _, b := range x.Bind {
+			ex.forceInit(st, b, seen)
 		}
 	}
 }
@@ -977,12 +994,19 @@ func (ex *Exec) eventOrdinal(ev *Event) int {
 
 // checkRespond: every triggering call must be followed by the required call before the function returns.
 func (ex *Exec) checkRespond(st *State, fr *Frame, ct *Contract, names map[string]Value) {
+	ex.checkRespondFrom(st, fr, ct, names, 0, false)
+}
+
+// checkRespondFrom checks respond clauses for the triggering events recorded at index >= from. With
+// onlyLoop set (end of the arbitrary iteration of a cut loop) only clauses of the function that owns the
+// loop are meaningful for events of that iteration.
+func (ex *Exec) checkRespondFrom(st *State, fr *Frame, ct *Contract, names map[string]Value, from int, onlyLoop bool) {
 	for ti, tc := range ct.Temporal {
 		if tc.Kind != "respond" {
 			continue
 		}
 		for ai, a := range st.Events {
-			if !eventMatches(a, tc.A) {
+			if ai < from || !eventMatches(a, tc.A) {
 				continue
 			}
 			na := map[string]Value{}
@@ -1005,23 +1029,31 @@ func (ex *Exec) checkRespond(st *State, fr *Frame, ct *Contract, names map[strin
 			}
 			var alts []*Term
 			for _, b := range st.Events[ai+1:] {
-				if !eventMatches(b, tc.B) {
-					continue
-				}
-				nb := map[string]Value{}
-				for k, v := range na {
-					nb[k] = v
-				}
-				ex.eventNames(nb, "b", b)
-				envb := &Env{ex: ex, st: st, names: nb, errs: &errs}
-				c := TTrue
-				if tc.Cond != nil {
-					c = envb.evalBool(tc.Cond)
-					if c == nil {
+				for alt := 0; alt < 2; alt++ {
+					pat, cond := tc.B, tc.Cond
+					if alt == 1 {
+						pat, cond = tc.B2, tc.Cond2
+					}
+					if pat == "" || !eventMatches(b, pat) {
 						continue
 					}
+					nb := map[string]Value{}
+					for k, v := range na {
+						nb[k] = v
+					}
+					ex.eventNames(nb, "b", b)
+					var berrs []string
+					envb := &Env{ex: ex, st: st, names: nb, errs: &berrs}
+					c := TTrue
+					if cond != nil {
+						c = envb.evalBool(cond)
+						if c == nil {
+							ex.Specs.Errors = append(ex.Specs.Errors, fmt.Sprintf("%s: where: %s", tc.Line, strings.Join(berrs, "; ")))
+							continue
+						}
+					}
+					alts = append(alts, c)
 				}
-				alts = append(alts, c)
 			}
 			goal := Implies(when, Or(alts...))
 			if tc.Unless != nil {
@@ -1040,6 +1072,33 @@ func (ex *Exec) checkRespond(st *State, fr *Frame, ct *Contract, names map[strin
 			ob := &Obligation{Name: fmt.Sprintf("%s/respond/%s%s", ex.fnName(fr.Fn), label, site), Kind: "respond", Goal: goal, Props: tc.Props, Fn: fr.Fn.String(), Note: tc.Line}
 			if a.Instr != nil {
 				ob.Pos = ex.Prog.Fset.Position(a.Instr.Pos())
+			}
+			ex.record(st, ob)
+		}
+	}
+}
+
+// onEventDiscipline: "no-graph-write-while-walking" - a call that needs the graph's write lock while an
+// ancestor walker of this goroutine may still hold its read lock.
+func (ex *Exec) onEventDiscipline(st *State, ev *Event) {
+	if ex.entryCt == nil || len(st.Open) == 0 {
+		return
+	}
+	props, ok := ex.entryCt.Discipline["no-graph-write-while-walking"]
+	if !ok {
+		return
+	}
+	for _, pat := range []string{"DAG).AddVertexByID", "DAG).AddEdge", "DAG).DeleteVertex"} {
+		if eventMatches(ev, pat) {
+			fr0 := st.Frames[0]
+			site := ""
+			if ev.Instr != nil {
+				site = fmt.Sprintf("@%s#%d", shortName(ex.fnName(ev.Instr.Parent())), ex.eventOrdinal(ev))
+			}
+			ob := &Obligation{Name: fmt.Sprintf("%s/ghost:open/graph-write%s", ex.fnName(fr0.Fn), site), Kind: "ghost", Goal: TFalse, Props: props, Fn: fr0.Fn.String(),
+				Note: "the graph's write lock is requested while an abandoned ancestor walker may hold the read lock"}
+			if ev.Instr != nil {
+				ob.Pos = ex.Prog.Fset.Position(ev.Instr.Pos())
 			}
 			ex.record(st, ob)
 		}
